@@ -535,9 +535,9 @@ func genCase(r *rng.R, opt *config.PersistOptions, wb bool, a c07x.Alphabet, nop
 	return c
 }
 
-// the history of DESIGN.md S10 (repaired by /repo e76651c), heartbeats handled one at a time: regression case
+// the history of DESIGN.md S10 (repaired by /repo 8a5de01), heartbeats handled one at a time: regression case
 func writeBackRegression(opt *config.PersistOptions) hcase {
-	c := hcase{WB: true, tags: map[string]int{"regression:write-back-resurrection(e76651c)": 1}}
+	c := hcase{WB: true, tags: map[string]int{"regression:write-back-resurrection(8a5de01)": 1}}
 	w := newWorld(true, opt)
 	defer w.close()
 	g := &gen{r: rng.New(1), w: w, c: &c, ids: map[uint64]bool{}, last: time.Now()}
